@@ -122,9 +122,16 @@ def run_check(pid, cfg, tier, seed, args, t0):
     by_backend = {}
     vacuity = {'functions_with_feasible_exit': 0, 'functions': 0}
     # ---- 1. deductive part ---------------------------------------------------------------
-    if sidecars:
-        reports, reg = verify_parallel(sidecars, cfg.get('targets'), procs=args.procs, timeout_ms=timeout_ms,
+    groups = [sidecars] if sidecars else []
+    for extra in cfg.get('more_sidecar_groups', []):
+        groups.append([os.path.join(ROOT, f) for f in extra])
+    all_reports = {}
+    for grp in groups:
+        reports, reg = verify_parallel(grp, cfg.get('targets'), procs=args.procs, timeout_ms=timeout_ms,
                                        max_paths=cfg.get('max_paths', 6000))
+        all_reports.update(reports)
+    if groups:
+        reports = all_reports
         for target, rep in sorted(reports.items()):
             vacuity['functions'] += 1
             feasible_exits = sum(v for k, v in rep.outcomes.items() if k in ('return', 'raise', 'cut'))
